@@ -8,6 +8,11 @@ FuncsMC  == {"F", "U", "G", "C"}
 KindMC   == [f \in FuncsMC |-> CASE f = "G" -> "gen" [] f = "C" -> "coro" [] OTHER -> "plain"]
 WantedMC == [f \in FuncsMC |-> f # "U"]
 ValsMC   == {"int", "none"}
+\* a narrower alphabet for deeper exhaustive path enumeration around generators (throw / drop / resume)
+FuncsGF  == {"F", "G"}
+KindGF   == [f \in FuncsGF |-> IF f = "G" THEN "gen" ELSE "plain"]
+WantedGF == [f \in FuncsGF |-> TRUE]
+ValsGF   == {"int"}
 
 DepthOK == TLCGet("level") <= MaxDepth
 View == <<fr, stack, truth, traces, skipped, logged>>
@@ -15,6 +20,6 @@ View == <<fr, stack, truth, traces, skipped, logged>>
 \* path export: one JSON behaviour per maximal path (hist is part of the state, no VIEW)
 Emit == (TLCGet("level") = MaxDepth + 1 \/ ~ENABLED Next) =>
            PrintT(<<"H", ToJson([hist |-> hist,
-                                 pred |-> [logged |-> ProjSeq(logged), truth |-> ProjSeq(truth),
+                                 pred |-> [logged |-> ProjSeq(Judged(logged)), truth |-> ProjSeq(truth),
                                            resid |-> Cardinality({t \in traces : fr[t.id].st = "done"})]])>>)
 =============================================================================
